@@ -39,11 +39,11 @@ def with_want(scens, want):
 
 def fam_general(rng, tier):
     return (fam_ss(rng, tier) + gen.fam_redefine_in_packet(rng, n(tier, 60, 500)) + gen.fam_sizes(rng, tier) + gen.fam_boundaries(rng) + gen.fam_fixed(rng, n(tier, 60, 400)) + gen.fam_fixed_counts(rng, tier) + gen.fam_stream(rng, n(tier, 150, 1500)) + gen.fam_garbage(rng, n(tier, 80, 600)) +
-            gen.fam_orphan(rng, n(tier, 60, 500)) + gen.fam_allowed_mix(rng, n(tier, 80, 600)))
+            gen.fam_orphan(rng, n(tier, 60, 500)) + gen.fam_allowed_mix(rng, n(tier, 80, 600)) + gen.fam_allowed_swap(rng, n(tier, 20, 200)))
 
 
 def fam_fixed_all(rng, tier):
-    return gen.fam_fixed(rng, n(tier, 120, 1200), max_recs=n(tier, 40, 200)) + gen.fam_fixed_counts(rng, tier) + gen.fam_fixed_protocols(rng) + \
+    return gen.fam_allowed_swap(rng, n(tier, 20, 200)) + gen.fam_fixed_alias_versions(rng, n(tier, 60, 400)) + gen.fam_fixed(rng, n(tier, 120, 1200), max_recs=n(tier, 40, 200)) + gen.fam_fixed_counts(rng, tier) + gen.fam_fixed_protocols(rng) + \
         gen.fam_stream(rng, n(tier, 40, 300), versions=(5, 7))
 
 
@@ -55,21 +55,21 @@ def fam_ss(rng, tier, protos=(9, 10), want=None):
 
 
 def fam_v9(rng, tier):
-    return fam_ss(rng, tier, (9,)) + [sc for sc in gen.fam_redefine_in_packet(rng, n(tier, 80, 600)) if '-9-' in sc[0]] + gen.fam_dup_in_set(rng, n(tier, 40, 300)) + gen.fam_sizes(rng, tier) + gen.fam_boundaries(rng) + gen.fam_stream(rng, n(tier, 200, 2000), versions=(9,), calls=(1, 5)) + gen.fam_redefine(rng, n(tier, 40, 300)) + \
+    return [sc for sc in gen.fam_forget(rng, n(tier, 60, 400)) + gen.fam_adopt(rng, n(tier, 40, 300)) if sc[0].endswith("-9") or "-9-" in sc[0]] + fam_ss(rng, tier, (9,)) + [sc for sc in gen.fam_redefine_in_packet(rng, n(tier, 80, 600)) if '-9-' in sc[0]] + gen.fam_dup_in_set(rng, n(tier, 40, 300)) + gen.fam_sizes(rng, tier) + gen.fam_boundaries(rng) + gen.fam_stream(rng, n(tier, 200, 2000), versions=(9,), calls=(1, 5)) + gen.fam_redefine(rng, n(tier, 40, 300)) + \
         gen.fam_stream(rng, n(tier, 200, 2000), versions=(9,), calls=(1, 5), lossless=True) + \
         gen.fam_stream(rng, n(tier, 100, 800), versions=(9,), calls=(1, 4), lossless=True, wild=True) + \
         gen.fam_widths(rng, 9, sample=n(tier, 120, None)) + gen.fam_all_fields(rng, 9) + gen.fam_proto_values(rng, 9)
 
 
 def fam_ipfix(rng, tier):
-    return fam_ss(rng, tier, (10,)) + [sc for sc in gen.fam_redefine_in_packet(rng, n(tier, 80, 600)) if '-10-' in sc[0]] + gen.fam_dup_in_set(rng, n(tier, 40, 300)) + gen.fam_sizes(rng, tier) + gen.fam_boundaries(rng) + gen.fam_stream(rng, n(tier, 200, 2000), versions=(10,), calls=(1, 5)) + gen.fam_redefine(rng, n(tier, 40, 300)) + \
+    return [sc for sc in gen.fam_forget(rng, n(tier, 60, 400)) + gen.fam_adopt(rng, n(tier, 40, 300)) if sc[0].endswith("-10") or "-10-" in sc[0]] + fam_ss(rng, tier, (10,)) + [sc for sc in gen.fam_redefine_in_packet(rng, n(tier, 80, 600)) if '-10-' in sc[0]] + gen.fam_dup_in_set(rng, n(tier, 40, 300)) + gen.fam_sizes(rng, tier) + gen.fam_boundaries(rng) + gen.fam_stream(rng, n(tier, 200, 2000), versions=(10,), calls=(1, 5)) + gen.fam_redefine(rng, n(tier, 40, 300)) + \
         gen.fam_stream(rng, n(tier, 300, 3000), versions=(10,), calls=(1, 5), lossless=True, simple_ipfix=True) + \
         gen.fam_stream(rng, n(tier, 100, 800), versions=(10,), calls=(1, 4), lossless=True, simple_ipfix=True, wild=True) + \
         gen.fam_widths(rng, 10, sample=n(tier, 150, None)) + gen.fam_all_fields(rng, 10) + gen.fam_proto_values(rng, 10) + gen.fam_rejected_template(rng, n(tier, 40, 300), want=["export"])
 
 
 def fam_cache(rng, tier):
-    return fam_ss(rng, tier) + gen.fam_redefine_in_packet(rng, n(tier, 60, 400), lossless=True) + gen.fam_dup_in_set(rng, n(tier, 80, 600)) + gen.fam_chain_many_templates(rng, n(tier, (1100,), (1025, 1100, 4100))) + gen.fam_boundaries(rng) + gen.fam_isolation(rng, n(tier, 60, 500)) + gen.fam_forget(rng, n(tier, 60, 400)) + gen.fam_rejected_template(rng, n(tier, 60, 400)) + gen.fam_template_noise(rng, n(tier, 60, 400)) + gen.fam_redefine(rng, n(tier, 80, 600), lossless=True) + \
+    return fam_ss(rng, tier) + gen.fam_redefine_in_packet(rng, n(tier, 60, 400), lossless=True) + gen.fam_dup_in_set(rng, n(tier, 80, 600)) + gen.fam_chain_many_templates(rng, n(tier, (1100,), (1025, 1100, 4100))) + gen.fam_boundaries(rng) + gen.fam_isolation(rng, n(tier, 60, 500)) + gen.fam_forget(rng, n(tier, 60, 400)) + gen.fam_adopt(rng, n(tier, 40, 300)) + gen.fam_rejected_template(rng, n(tier, 60, 400)) + gen.fam_template_noise(rng, n(tier, 60, 400)) + gen.fam_redefine(rng, n(tier, 80, 600), lossless=True) + \
         gen.fam_stream(rng, n(tier, 100, 800), simple_ipfix=True, lossless=True)
 
 
@@ -82,13 +82,13 @@ def fam_c11(rng, tier):
 
 
 def fam_c12(rng, tier):
-    return gen.fam_filter_sweep(rng) + gen.fam_filter(rng, n(tier, 250, 2500))
+    return gen.fam_filter_sweep(rng) + gen.fam_allowed_swap(rng, n(tier, 40, 400)) + gen.fam_allowed_mix(rng, n(tier, 80, 600)) + gen.fam_filter(rng, n(tier, 250, 2500))
 
 
 def fam_c14(rng, tier):
     if tier == "thorough":
-        return gen.fam_trunc_wide(rng) + gen.fam_trunc_history(rng, 600) + gen.fam_trunc(rng, 150) + gen.fam_trunc(rng, 40, fracs=list(range(0, 1001, 25)))
-    return gen.fam_trunc_wide(rng) + gen.fam_trunc_history(rng, 80) + gen.fam_trunc(rng, 300)
+        return gen.fam_trunc_wide(rng) + gen.fam_trunc_history(rng, 600) + gen.fam_trunc(rng, 150) + gen.fam_trunc(rng, 40, fracs=list(range(0, 1001, 25))) + gen.fam_forget(rng, 500)
+    return gen.fam_trunc_wide(rng) + gen.fam_trunc_history(rng, 80) + gen.fam_trunc(rng, 300) + gen.fam_forget(rng, 80)
 
 
 def fam_c13(rng, tier):
@@ -135,7 +135,7 @@ PROPS = {
             "mutate_per": {"quick": 1, "thorough": 2},
             "rule": "results of every kind (all four versions, templates, options, data with every value kind incl. 128-bit counters, NaN/infinite floats, non-UTF-8 strings, zero-length values, error elements with arbitrary remaining bytes); serde_json text produced twice by the harness and by a twin parser fed the same history, read back with Lean's JSON parser and compared with the model's serialisation tree toJ of the decoded value"},
     "C17": {"oracle": "C17", "view": ["outcome", "pkts", "state", "exports", "common"], "two_builds": True,
-            "families": lambda rng, tier: fam_ss(rng, tier) + gen.fam_stream(rng, n(tier, 250, 2500), versions=(9, 10), calls=(1, 4)) +
+            "families": lambda rng, tier: fam_ss(rng, tier) + gen.fam_forget(rng, n(tier, 60, 400)) + gen.fam_adopt(rng, n(tier, 40, 300)) + gen.fam_stream(rng, n(tier, 250, 2500), versions=(9, 10), calls=(1, 4)) +
             gen.fam_stream(rng, n(tier, 150, 1500), versions=(9, 10), calls=(1, 4), lossless=True, simple_ipfix=True) + gen.fam_fixed(rng, n(tier, 20, 100)),
             "rule": "both feature configurations (two harness builds against the working tree) on conformant V9/IPFIX histories with known-only templates and with templates containing fields the library has no type for"},
     "C14": {"oracle": "C14", "view": ["outcome", "pkts", "state"], "families": fam_c14,
